@@ -35,8 +35,8 @@ class Kroupa:
 
     def __init__(self, a=[1.3, 2.35], mlim=[0.08, 0.5, 120.0]):
 
-        a = np.array(a)
-        mlim = np.array(mlim)
+        a = np.array(a, dtype=float)
+        mlim = np.array(mlim, dtype=float)
         self._a = a
         self._mlim = mlim
 
@@ -61,7 +61,7 @@ class Kroupa:
         self._C = C
 
     def eval(self, X, N0=1):
-        X = np.array([X])  # make it an array
+        X = np.array([X], dtype=float)  # make it an array
         mlim = self._mlim
         a = self._a
         C = self._C
